@@ -457,6 +457,7 @@ func init() {
 		}
 		m.locked = true
 		c.r.acquire(c.t, m.sync)
+		c.r.syncMirror(c, m)
 		return invDone, nil
 	}
 	stubs["(*sync.Mutex).TryLock"] = func(c *intrCtx) (invResult, Value) {
@@ -465,10 +466,12 @@ func init() {
 			return invYield, nil
 		}
 		if m.locked {
+			c.r.syncMirror(c, m)
 			return invDone, c.r.tt.False
 		}
 		m.locked = true
 		c.r.acquire(c.t, m.sync)
+		c.r.syncMirror(c, m)
 		return invDone, c.r.tt.True
 	}
 	stubs["(*sync.Mutex).Unlock"] = func(c *intrCtx) (invResult, Value) {
@@ -481,6 +484,7 @@ func init() {
 		}
 		m.locked = false
 		c.r.release(c.t, &m.sync)
+		c.r.syncMirror(c, m)
 		return invDone, nil
 	}
 	// sync.RWMutex gives writers preference: from the moment Lock is called (and no other writer
@@ -502,6 +506,7 @@ func init() {
 				m.locked = true
 				c.r.acquire(c.t, m.sync)
 				c.r.acquire(c.t, m.rsync)
+				c.r.syncMirror(c, m)
 				return invDone, nil
 			}
 		}
@@ -514,6 +519,7 @@ func init() {
 		m.locked = true
 		c.r.acquire(c.t, m.sync)
 		c.r.acquire(c.t, m.rsync)
+		c.r.syncMirror(c, m)
 		return invDone, nil
 	}
 	stubs["(*sync.RWMutex).TryLock"] = func(c *intrCtx) (invResult, Value) {
@@ -522,12 +528,14 @@ func init() {
 			return invYield, nil
 		}
 		if m.locked || m.readers > 0 || m.writer != nil {
+			c.r.syncMirror(c, m)
 			return invDone, c.r.tt.False
 		}
 		m.locked = true
 		m.writer = c.t
 		c.r.acquire(c.t, m.sync)
 		c.r.acquire(c.t, m.rsync)
+		c.r.syncMirror(c, m)
 		return invDone, c.r.tt.True
 	}
 	stubs["(*sync.RWMutex).Unlock"] = func(c *intrCtx) (invResult, Value) {
@@ -541,6 +549,7 @@ func init() {
 		m.locked = false
 		m.writer = nil
 		c.r.release(c.t, &m.sync)
+		c.r.syncMirror(c, m)
 		return invDone, nil
 	}
 	stubs["(*sync.RWMutex).RLock"] = func(c *intrCtx) (invResult, Value) {
@@ -553,6 +562,7 @@ func init() {
 		}
 		m.readers++
 		c.r.acquire(c.t, m.sync)
+		c.r.syncMirror(c, m)
 		return invDone, nil
 	}
 	stubs["(*sync.RWMutex).TryRLock"] = func(c *intrCtx) (invResult, Value) {
@@ -561,10 +571,12 @@ func init() {
 			return invYield, nil
 		}
 		if m.locked || m.writer != nil {
+			c.r.syncMirror(c, m)
 			return invDone, c.r.tt.False
 		}
 		m.readers++
 		c.r.acquire(c.t, m.sync)
+		c.r.syncMirror(c, m)
 		return invDone, c.r.tt.True
 	}
 	stubs["(*sync.RWMutex).RUnlock"] = func(c *intrCtx) (invResult, Value) {
@@ -577,6 +589,7 @@ func init() {
 		}
 		m.readers--
 		c.r.release(c.t, &m.rsync)
+		c.r.syncMirror(c, m)
 		return invDone, nil
 	}
 	// ---- sync.WaitGroup ----
@@ -923,8 +936,8 @@ type mutexState struct {
 	wgWaiters  int
 	wgAsleep   map[*Thread]bool
 	wgReleased map[*Thread]bool
-	sync    *syncMeta
-	rsync   *syncMeta
+	sync       *syncMeta
+	rsync      *syncMeta
 }
 
 func (r *Run) mutexOf(c *intrCtx, i int) *mutexState {
@@ -936,8 +949,84 @@ func (r *Run) mutexOf(c *intrCtx, i int) *mutexState {
 	if m == nil {
 		m = &mutexState{}
 		r.mutexes[p.s] = m
+		// a Mutex / RWMutex that is a copy of a locked one is born locked (and nobody will ever
+		// unlock it): the lock state is mirrored into the struct's own fields, which a struct copy
+		// carries along
+		if st, rd, ok := r.lockMirror(p.s); ok {
+			if t, isT := st.v.(*Term); isT && t.IsConst() && t.c != 0 {
+				m.locked = true
+			}
+			if rd != nil {
+				if t, isT := rd.v.(*Term); isT && t.IsConst() && sext(t.c, t.sort.W) > 0 {
+					m.readers = int(sext(t.c, t.sort.W))
+				}
+			}
+		}
 	}
 	return m
+}
+
+// lockMirror finds the fields that mirror the engine's lock state inside a sync.Mutex
+// (state) or sync.RWMutex (w.state, readerCount.v) value.
+func (r *Run) lockMirror(s *Slot) (state, readers *Slot, ok bool) {
+	st, isStruct := under(s.typ).(*types.Struct)
+	if !isStruct {
+		return nil, nil, false
+	}
+	for i := 0; i < st.NumFields(); i++ {
+		switch st.Field(i).Name() {
+		case "state":
+			if len(s.sub) > i {
+				return s.sub[i], nil, true
+			}
+		case "w":
+			if len(s.sub) > i {
+				ws, _, wok := r.lockMirror(s.sub[i])
+				if !wok {
+					return nil, nil, false
+				}
+				for j := 0; j < st.NumFields(); j++ {
+					if st.Field(j).Name() == "readerCount" && len(s.sub) > j {
+						rc := s.sub[j]
+						if rst, isS := under(rc.typ).(*types.Struct); isS {
+							for k := 0; k < rst.NumFields(); k++ {
+								if rst.Field(k).Name() == "v" && len(rc.sub) > k {
+									return ws, rc.sub[k], true
+								}
+							}
+						}
+					}
+				}
+				return ws, nil, true
+			}
+		}
+	}
+	return nil, nil, false
+}
+
+// syncMirror writes the engine's lock state into the mirrored fields (no race bookkeeping:
+// the real primitives update these words atomically).
+func (r *Run) syncMirror(c *intrCtx, m *mutexState) {
+	p, ok := c.args[0].(Ptr)
+	if !ok || p.s == nil {
+		return
+	}
+	st, rd, ok := r.lockMirror(p.s)
+	if !ok {
+		return
+	}
+	if t, isT := st.v.(*Term); isT {
+		v := uint64(0)
+		if m.locked {
+			v = 1
+		}
+		st.v = r.tt.Const(t.sort, v)
+	}
+	if rd != nil {
+		if t, isT := rd.v.(*Term); isT {
+			rd.v = r.tt.Const(t.sort, uint64(m.readers))
+		}
+	}
 }
 
 // condState: the notify list of a sync.Cond (tickets in arrival order; Signal wakes the oldest)
